@@ -209,6 +209,20 @@ func gramCases(j run.Job, yield func(c GCase)) {
 				yield(GCase{G: g, In: in, NT: 0, Fam: "userlist"})
 			}
 		}
+	case "strings":
+		r := rand.New(rand.NewSource(j.Seed))
+		for gi := 0; gi < j.N; gi++ {
+			g := gram.StrGrammar(r)
+			for ii := 0; ii < j.Param("inputs", 6); ii++ {
+				bias := 90
+				if ii == j.Param("inputs", 6)-1 {
+					bias = 0
+				}
+				nt := r.Intn(2)
+				in := g.RandomInput(r, nt, 24, bias)
+				yield(GCase{G: g, In: in, NT: nt, Fam: "strings"})
+			}
+		}
 	case "trimseq":
 		r := rand.New(rand.NewSource(j.Seed))
 		inputs := j.Param("inputs", 6)
